@@ -5,6 +5,6 @@ name=$1; prop=$2; shift 2
 wt=$(mktemp -d /tmp/tryseed.XXXXXX); rmdir $wt
 git -C /repo worktree add --detach $wt HEAD >/dev/null 2>&1 || exit 2
 ( cd $wt && git apply /verif/seeded/$name/patch.diff ) || { echo "patch does not apply"; git -C /repo worktree remove --force $wt; exit 2; }
-/verif/bin/vcheck -prop $prop -tier quick -repo $wt "$@" 2>&1 | grep -v conda | grep -E "VIOLATION|KNOWN|vcheck: C|trouble" | cut -c1-400
+/verif/bin/vcheck -prop $prop -tier quick -repo $wt "$@" 2>&1 | grep -a -v conda | grep -a -E "VIOLATION|KNOWN|vcheck: C|trouble" | cut -c1-400
 rc=$?
 git -C /repo worktree remove --force $wt
